@@ -113,6 +113,72 @@ def width_lists():
     return out  # 39
 
 
+def native_long_inputs():
+    """concrete: inputs far beyond the solver's bound (tens of thousands of characters, i.e. several buffer blocks of
+    any plausible size), through a text stream and through a file given by path, against the same reference
+    recogniser; also field contents that contain line-delimiter characters.  Exploration, not a solver verdict."""
+    import io
+    import os
+    import shutil
+    import tempfile
+    from cutplace import rowio, errors
+    failures = []
+    n = 0
+    d = tempfile.mkdtemp(prefix="c13native")
+    alphabet = "0123456789abcdefghijklmnopqrstuvwxyzABCDEFGHIJKLMNOPQRSTUVWXYZ"
+    try:
+        cases = []
+        for widths in ((5, 3, 1), (2,), (3, 4), (1,), (7,), (2, 1)):
+            total = sum(widths)
+            for dname, delim in DELIMS.items():
+                sep = {"any": "\r\n", None: ""}.get(delim, delim)
+                for nrec in (700, 2500, 5000):
+                    recs = []
+                    for i in range(nrec):
+                        body = "".join(alphabet[(i * 7 + j * 3) % len(alphabet)] for j in range(total))
+                        recs.append(body)
+                    for final in (True, False):
+                        text = sep.join(recs) + (sep if final else "")
+                        cases.append((widths, dname, delim, text, "%d records%s" % (nrec, "" if final else " without final delimiter")))
+                # a truncated last record far into the data
+                text = sep.join(recs) + sep + recs[0][:max(1, total - 1)] if total > 1 else None
+                if text is not None:
+                    cases.append((widths, dname, delim, text, "truncated last record"))
+        # field contents containing delimiter characters (reading goes by character count only)
+        cases.append(((2, 5), "lf", "\n", "01ab\ncd\n02hello\n", "line feed inside a field"))
+        cases.append(((2, 5), "any", "any", "01ab\rcd\n02he\nlo\r\n", "CR / LF inside fields"))
+        cases.append(((2, 5), "crlf", "\r\n", "01a\r\ncd\r\n02hello\r\n", "CRLF inside a field"))
+        cases.append(((3,), "none", None, "a\nb\r\nc", "delimiter characters without delimiter"))
+        for widths, dname, delim, text, what in cases:
+            n += 1
+            exp = spec_parse(text, list(widths), delim)
+            fl = [("f%d" % i, w) for i, w in enumerate(widths)]
+            path = os.path.join(d, "long.txt")
+            with open(path, "w", newline="", encoding="ascii") as f:
+                f.write(text)
+            for how, source in (("stream", lambda: io.StringIO(text, newline="")), ("path", lambda: path)):
+                try:
+                    got = list(rowio.fixed_rows(source(), "ascii", fl, delim))
+                except errors.DataFormatError:
+                    got = None
+                except Exception as e:  # noqa
+                    failures.append(dict(key="fixed-rows-long", what="widths %r, delimiter %s, %s (%d characters, %s) raised %s: %s" % (
+                        widths, dname, what, len(text), how, type(e).__name__, e), args=dict(widths=list(widths), delimiter=dname, case=what)))
+                    continue
+                if got != exp:
+                    where = None
+                    if got is not None and exp is not None:
+                        where = next((i for i, (a, b) in enumerate(zip(got, exp)) if a != b), min(len(got), len(exp)))
+                    failures.append(dict(key="fixed-rows-long", what="widths %r, delimiter %s, %s (%d characters, %s): %s" % (
+                        widths, dname, what, len(text), how,
+                        "rejected although well-formed" if got is None else "accepted although malformed" if exp is None else
+                        "rows differ from row %r on: got %r expected %r" % (where, got[where:where + 1], exp[where:where + 1])),
+                        args=dict(widths=list(widths), delimiter=dname, case=what)))
+    finally:
+        shutil.rmtree(d, ignore_errors=True)
+    return dict(count=n, failures=failures, samples=[])
+
+
 def build(tier, seed):
     import random
     rnd = random.Random(seed)
@@ -148,7 +214,7 @@ def build(tier, seed):
                              "widths %r, line delimiter %r, encoding argument %r, every Unicode text of length <= %d" % (w, d, enc, ml),
                              budget_s=budget, per_path_timeout=60, replay=rp, functions=FUNCS,
                              stubs=("S-STREAM text stream stub (read(n) = next n characters)", "S-FMT")))
-    return dict(queries=queries,
+    return dict(queries=queries, native=native_long_inputs,
                 assumptions=["the stream delivers characters exactly as io.StringIO(text, newline='') does"],
                 outside_claim=["texts longer than the bound", "byte decoding (codecs)", "more than 3 fields / widths above 3"],
                 exhaustive=(tier == "thorough"))
